@@ -56,6 +56,7 @@ def check_no_out(r, case):
 
 def run(case):
     r = sched.run_sched(case)
+    H = None
     if case.get('no_out'):
         viol, stats, nontrivial = check_no_out(r, case)
     else:
@@ -64,6 +65,8 @@ def run(case):
     stats['kind_' + case['kind']] = 1
     if case.get('fmap') is not None:
         stats['many_to_one_map'] = 1
+    if getattr(H, 'rate2_busy', False):
+        viol = []          # the rate changed in mid busy period: no verdict from this run (see sched.parse)
     viol += sched.twin_check(r, case, ID, stats)
     res = {'viol': viol, 'digest': digest_of(r.w.log), 'nontrivial': nontrivial, 'stats': stats,
            'simtime': float(r.w.env.now), 'steps': r.w.steps}
